@@ -14,7 +14,8 @@ Inductive inl := IStrike (w : str) | IEsc (c : Z) | IImg (w dest : str)
   | INest (ch : Z) (k : nat) (h : str) (ps : list EmphPhrases.phrase) (z : str)
   | ILinkT (w dest : str) (q : Z) (title : str)
   | IAuto (c0 : Z) (sc r : str)
-  | ILinkA (w : str) (c0 : Z) (d : str).            (* an inline link whose destination c0 :: d stands between angle brackets *)                                                    (* an autolink <scheme:rest>, the scheme c0 :: sc *)                                                    (* an inline link with a title between double quotes, single quotes (q = 39) or parentheses (q = 40) *)     (* an emphasised phrase holding emphasised phrases *)
+  | ILinkA (w : str) (c0 : Z) (d : str)
+  | ILinkE (h : str) (ps : list EmphPhrases.phrase) (z dest : str).            (* an inline link whose destination c0 :: d stands between angle brackets *)                                                    (* an autolink <scheme:rest>, the scheme c0 :: sc *)                                                    (* an inline link with a title between double quotes, single quotes (q = 39) or parentheses (q = 40) *)     (* an emphasised phrase holding emphasised phrases *)
 (* what closes a title opened by q (core_tokens.match_link_title) *)
 Definition title_closer (q : Z) : Z := if q =? 34 then 34 else if q =? 39 then 39 else if q =? 40 then 41 else -1.
 Definition inl_text (x : inl) : str :=
@@ -26,6 +27,7 @@ Definition inl_text (x : inl) : str :=
   | ILinkT w d q tl => [91] ++ w ++ [93; 40] ++ d ++ [32; q] ++ tl ++ [title_closer q; 41]
   | IAuto c0 sc r => [60] ++ (c0 :: sc ++ 58 :: r) ++ [62]
   | ILinkA w c0 d => [91] ++ w ++ [93; 40] ++ [60] ++ (c0 :: d) ++ [62] ++ [41]
+  | ILinkE h ps z d => [91] ++ (h ++ EmphPhrases.body ps ++ z) ++ [93; 40] ++ d ++ [41]
   end.
 Definition one_body (pre : str) (x : inl) (post : str) : str := pre ++ inl_text x ++ post.
 
